@@ -106,9 +106,9 @@ CLAIMED["C15"] = dict(
 
 NA = {
     "C08": "the property is accuracy (ulps of length() and of normalised vectors): not expressible to the installed back ends (sqrt is uninterpreted; CBMC's own sqrt model times out). The structural remnants - zero vector stays zero / normalizeExc throws exactly for zero length / normalize == normalized - are decided under C07; length2()==dot(*this) is the function's literal body.",
-    "C12": "factor recomposition, orthonormal residuals, Jacobi SVD / eigen convergence and Procrustes optimality are statements about iterative floating-point algorithms with sqrt/normalisation at every step; no contract expressible to CBMC states them without real-number error analysis (the exc-flag agreement of these wrappers would belong to C07 and is not built).",
+    "C12": "factor recomposition, orthonormal residuals, Jacobi SVD / eigen convergence and Procrustes optimality are statements about iterative floating-point algorithms with sqrt/normalisation at every step; no contract expressible to CBMC states them without real-number error analysis (the clause 'degenerate input is reported: false or std::domain_error' is decided under C07 for checkForZeroScaleInRow, extractAndRemoveScalingAndShear, removeScalingAndShear and the 4x4 extract* / sans* wrappers; nothing else of C12 is).",
     "C15": "closest points, distances, reflections, plane / sphere / triangle intersection are metric statements through normalize, division and sqrt; the division-free fragments are too thin to stand for the property.",
-    "C16": "projection / depth / plane / culling consistency needs rational identities with divisions, tan/atan2, normalised plane equations and real-geometry inclusion arguments; only Exc/non-Exc agreement would be within reach (C07 family) and is not built.",
+    "C16": "projection / depth / plane / culling consistency needs rational identities with divisions, tan/atan2, normalised plane equations and real-geometry inclusion arguments; the Exc / non-Exc agreement of the ten Frustum pairs is decided under C07; the RETYPE route (C15) would need a hand-derived residual form per clause (nested inverses, tan) and was not attempted.",
 }
 
 PENDING_REASON = "not yet brought under contract in this revision of /verif (see DESIGN.md section 6 for the plan); no check is registered, nothing is claimed"
